@@ -333,6 +333,26 @@ func (st *e2eState) buildError() error {
 	return nil
 }
 
+// lateError is an interceptor around a client-streaming handler that fails the call after the handler has
+// returned its response (scenario out.after = 1).
+type lateError struct{}
+
+func (lateError) WrapUnary(next connect.UnaryFunc) connect.UnaryFunc { return next }
+func (lateError) WrapStreamingClient(next connect.StreamingClientFunc) connect.StreamingClientFunc {
+	return next
+}
+func (lateError) WrapStreamingHandler(next connect.StreamingHandlerFunc) connect.StreamingHandlerFunc {
+	return func(ctx context.Context, conn connect.StreamingHandlerConn) error {
+		err := next(ctx, conn)
+		if st := stateOf(conn.RequestHeader()); err == nil && st != nil && st.sc.Kind == "client" && st.sc.Out.After == 1 {
+			if late := st.buildError(); late != nil {
+				return late
+			}
+		}
+		return err
+	}
+}
+
 func (st *e2eState) payload(m msgSc) *BV {
 	if m.Vlen == 0 {
 		return &BV{}
@@ -405,14 +425,14 @@ func e2eHandler(sc *e2eScenario) *connect.Handler {
 			if st.sc.Out.Kind == "badsend" {
 				return connect.NewResponse(&BV{Value: poisonValue}), nil
 			}
-			if err := st.buildError(); err != nil {
+			if err := st.buildError(); err != nil && st.sc.Out.After == 0 {
 				return nil, err
 			}
 			res := connect.NewResponse(st.payload(st.sc.Resp[0]))
 			addAll(res.Header(), st.sc.RespHdr)
 			addAll(res.Trailer(), st.sc.RespTrl)
 			return res, nil
-		}, opts...)
+		}, append(opts, connect.WithInterceptors(lateError{}))...)
 	case "server":
 		h = connect.NewServerStreamHandler(e2eProc, func(_ context.Context, r *connect.Request[BV], ss *connect.ServerStream[BV]) error {
 			st := stateOf(r.Header())
